@@ -87,6 +87,24 @@ PROPS = {
                       'Kani proves kind preservation of the From conversion only'],
         'design_ref': '§4 C07',
     },
+    'C10': {
+        'title': 'operation constructors produce exactly the described request',
+        'verus': [r'^operation::(PrintJob|CreateJob|SendDocument|PurgeJobs|CancelJob|GetJobAttributes|GetJobs)::into_ipp_request$',
+                  r'^operation::cups::(CupsGetPrinters|CupsDeletePrinter)::into_ipp_request$',
+                  r'^operation::with_user_name$', r'^operation::IppOperation::version$',
+                  r'^request::IppRequestResponse::(new|new_response|header_mut|attributes_mut|payload_mut|header|attributes|payload)$',
+                  r'^model::IppVersion::v1_1$', r'^IppHeader::new$'],
+        'kani': ['tables::table_operation'],
+        'assumptions': ['IppAttributes::add has the RFC-level contract spec_add (first group of the kind, replace by name, else new group '
+                        'at the end): assumed, its body (iter_mut().find()) is opaque to Verus — see C19',
+                        'IppAttribute::new(name, value) builds an attribute with that name text and value (AsRef<str> bound unsupported)',
+                        'canonicalize_uri is left uninterpreted: "canonical printer-uri" means that function\'s result (C13 not decided)',
+                        'String::to_string / Uri::to_string return the text of their argument', _A_LOG],
+        'uncovered': ['GetPrinterAttributes::into_ipp_request: `map(IppValue::Keyword).collect()` is outside Verus (constructor as '
+                      'function value) — body unverified, so requested-attributes is not covered',
+                      'the builder layer (operation/builder.rs: `mut self` setters, AsRef<str>, `impl IppOperation` returns) is not under contract'],
+        'design_ref': '§4 C10',
+    },
     'C16': {
         'title': 'code tables match the registries; status decoding total',
         'verus': [r'^IppHeader::status_code$', r'^model::StatusCode::is_success$'],
